@@ -206,3 +206,78 @@ Proof.
   - cbn [fst snd]. reflexivity.
   - destruct (run_action h r x) as [h1|]; [apply IH | reflexivity].
 Qed.
+
+(* ------------------------------------------------------------------ the kp-keyed cells of the receiver are never created by a safe action *)
+Lemma action_safe_kpcells kp R h a h' :
+  pinv kp R h -> act_safe kp a = true -> run_action h R a = Some h' ->
+  forall o o', nth_error h R = Some o -> nth_error h' R = Some o' ->
+  forall x, In (kp, VR x) (ocells o') -> In (kp, VR x) (ocells o).
+Proof.
+  intros P AS Run o o' Ho Ho' x Hin.
+  pose proof P as (_ & LR & _).
+  assert (Far : forall h1 lt obj, ext h h1 -> (S R <= lt)%nat -> h' = upd lt obj h1 -> In (kp, VR x) (ocells o)).
+  { intros h1 lt obj X Llt ->. rewrite nth_error_upd_neq in Ho' by lia. rewrite (ext_nth _ _ _ X LR), Ho in Ho'.
+    inversion Ho'; subst o'. exact Hin. }
+  destruct a as [p k s|p s|p cells]; cbn [run_action] in Run.
+  - destruct (eval_src h R s) as [[h1 v]|] eqn:E; [|discriminate].
+    assert (SS : src_safe kp s = true) by (destruct p; cbn [act_safe] in AS; apply andb_true_iff in AS; tauto).
+    destruct (eval_src_safe kp R h s h1 v P SS E) as (P1 & X & V).
+    destruct (resolve h1 R p) as [lt|] eqn:Res; [|discriminate].
+    destruct (nth_error h1 lt) as [olt|] eqn:Hlt; [|discriminate].
+    destruct (positional (okind olt) && _); [discriminate|]. inversion Run; subst h'; clear Run. unfold set_obj in *.
+    destruct p as [|k0 p'].
+    + cbn [act_safe] in AS. apply andb_true_iff in AS as [Nk _]. apply negb_true_iff in Nk. apply Z.eqb_neq in Nk.
+      cbn [resolve] in Res. inversion Res; subst lt.
+      rewrite (ext_nth _ _ _ X LR), Ho in Hlt. inversion Hlt; subst olt.
+      rewrite nth_error_upd_eq in Ho' by (destruct P1 as (_ & L1 & _); exact L1). inversion Ho'; subst o'. cbn [ocells] in Hin.
+      apply in_cell_set in Hin. destruct Hin as [Hin|Hin]; [exact Hin|]. inversion Hin; subst. congruence.
+    + assert (HP : head_ok kp (k0 :: p') = true) by (cbn [act_safe] in AS; apply andb_true_iff in AS; tauto).
+      eapply Far; [exact X | exact (resolve_newer kp R h1 P1 _ _ HP Res) | reflexivity].
+  - cbn [act_safe] in AS. apply andb_true_iff in AS as [HP SS].
+    destruct (eval_src h R s) as [[h1 v]|] eqn:E; [|discriminate].
+    destruct (eval_src_safe kp R h s h1 v P SS E) as (P1 & X & V).
+    destruct (resolve h1 R p) as [lt|] eqn:Res; [|discriminate].
+    destruct (nth_error h1 lt) as [olt|] eqn:Hlt; [|discriminate].
+    destruct (okind olt); try discriminate. inversion Run; subst h'; clear Run. unfold set_obj in *.
+    eapply Far; [exact X | exact (resolve_newer kp R h1 P1 _ _ HP Res) | reflexivity].
+  - cbn [act_safe] in AS.
+    destruct (resolve h R p) as [lt|] eqn:Res; [|discriminate].
+    destruct (nth_error h lt) as [olt|] eqn:Hlt; [|discriminate].
+    destruct (positional (okind olt)); [|discriminate]. inversion Run; subst h'; clear Run. unfold set_obj in *.
+    eapply Far; [apply ext_refl | exact (resolve_newer kp R h P _ _ AS Res) | reflexivity].
+Qed.
+
+Lemma actions_safe_kpcells kp R : forall acts h h' ok,
+  pinv kp R h -> forallb (act_safe kp) acts = true -> run_actions h R acts = (h', ok) ->
+  forall o o', nth_error h R = Some o -> nth_error h' R = Some o' ->
+  forall x, In (kp, VR x) (ocells o') -> In (kp, VR x) (ocells o).
+Proof.
+  induction acts as [|a rest IH]; intros h h' ok P AS Run o o' Ho Ho' x Hin; cbn [run_actions] in Run.
+  - inversion Run; subst. rewrite Ho in Ho'. inversion Ho'; subst. exact Hin.
+  - cbn [forallb] in AS. apply andb_true_iff in AS as [ASa ASr].
+    destruct (run_action h R a) as [h1|] eqn:E.
+    + destruct (action_safe kp R h a h1 P ASa E) as (P1 & _ & _).
+      pose proof P1 as (_ & _ & _ & o1 & Ho1 & _).
+      apply (action_safe_kpcells kp R h a h1 P ASa E o o1 Ho Ho1 x).
+      apply (IH h1 h' ok P1 ASr Run o1 o' Ho1 Ho' x Hin).
+    + inversion Run; subst. rewrite Ho in Ho'. inversion Ho'; subst. exact Hin.
+Qed.
+
+(* what such a receiver reaches: itself, objects newer than itself, and what the objects in its kp cells reach *)
+Lemma pinv_reach kp R h o :
+  pinv kp R h -> nth_error h R = Some o ->
+  forall l, reach h R l -> l = R \/ (S R <= l)%nat \/ exists x, In (kp, VR x) (ocells o) /\ reach h x l.
+Proof.
+  intros (W & LR & C & o0 & Ho0 & _ & Cells) Ho l H. rewrite Ho in Ho0. inversion Ho0; subst o0.
+  induction H as [|m l om Hm IH Hom Hin].
+  - left; reflexivity.
+  - destruct IH as [->|[Lm|(x & Hx & Rx)]].
+    + rewrite Ho in Hom. inversion Hom; subst om.
+      unfold refs in Hin. apply in_flat_map in Hin as ([k v] & Hc & Hv).
+      destruct v as [z|y]; simpl in Hv; [tauto|]. destruct Hv as [->|[]].
+      destruct (Z.eq_dec k kp) as [->|Nk].
+      * right; right. exists l. split; [exact Hc | apply reach_refl].
+      * right; left. apply (Cells k l Nk Hc).
+    + right; left. eapply C; [exact Lm | exact Hom | exact Hin].
+    + right; right. exists x. split; [exact Hx|]. eapply reach_step; [exact Rx | exact Hom | exact Hin].
+Qed.
